@@ -1155,6 +1155,16 @@ func (in *Interp) callBuiltin(caller *frame, fn *ssa.Builtin, args []value) valu
 		return acc
 	case "recover":
 		return in.doRecover(caller)
+	case "Sizeof":
+		switch a := args[0].(type) {
+		case ival:
+			return mkInt(64, false, uint64(a.bits/8))
+		case bool, sbool:
+			return mkInt(64, false, 1)
+		case float64:
+			return mkInt(64, false, 8)
+		}
+		panic(abortPath{"unsupported", fmt.Sprintf("unsafe.Sizeof(%T)", args[0])})
 	case "ssa:wrapnilchk":
 		recv := args[0]
 		if recv.(*value) == nil {
